@@ -2,3 +2,5 @@ void h_skc(void) { GrothSKC *self; size_t n; ios_t *in; unsigned long l, f, s; G
   __CPROVER_assert(__tmcg_thrown != 0, "REACHABILITY-CANARY (must fail): a construction without exception exists"); }
 void h_vsshe(void) { GrothVSSHE *self; size_t n; ios_t *in; unsigned long l, f, s; GrothVSSHE__ctor_stream(self, n, in, l, f, s);
   __CPROVER_assert(__tmcg_thrown != 0, "REACHABILITY-CANARY (must fail): a construction without exception exists"); }
+void h_skc_cg(void) { GrothSKC *self; GrothSKC__CheckGroup(self); }
+void h_vsshe_cg(void) { GrothVSSHE *self; GrothVSSHE__CheckGroup(self); }
